@@ -377,6 +377,12 @@ theorem createTable_streams (s : Pkg) (h : Listable s) (name : List Char) (cols 
   | some k => exact ⟨rfl, h⟩
   | none =>
     simp only
+    cases hcr : catalogRoom s name cols with
+    | err k => exact ⟨rfl, h⟩
+    | panic w => exact ⟨rfl, h⟩
+    | ok u =>
+    cases u
+    simp only
     obtain ⟨hv, -⟩ := createError_name s name cols hce
     simp only [Table.isValidName, Bool.and_eq_true] at hv
     obtain ⟨e1, g1⟩ := insertRows_streams s h Gen.nameColumns.toList (catalogRowsColumns name cols)
